@@ -12,9 +12,6 @@ import (
 	"time"
 )
 
-func replayGeneric(w *World, r *UnitResult, ob *Obligation) map[string]interface{} {
-	return map[string]interface{}{"confirmed": false, "note": "no replay generator for this obligation shape; the solver model (when there is one) is in solver_output"}
-}
 
 // replayBPF replays a counterexample of a cBPF lemma on the real program: the frame bytes, the frame length and the
 // filter configuration are read from the solver's model, the program taken from the source under test is run on the
